@@ -192,8 +192,8 @@ def tabs_term(rb, it):
 def gen_history(rng):
     ped = rng.random() < 0.15
     nsamples = 3 if ped else rng.choice([1, 2, 3, 3])
-    nchrom = rng.choice([1, 1, 2])
-    sc = synth.make_scenario(rng, nchrom=nchrom, nsamples=nsamples, nvars=rng.randint(4, 9),
+    nchrom = rng.choice([1, 2, 3, 3, 4])
+    sc = synth.make_scenario(rng, nchrom=nchrom, nsamples=nsamples, nvars=rng.randint(4, 9) if nchrom < 3 else rng.randint(3, 6),
                              kinds=("snv", "snv", "snv", "ins", "del"), het_fraction=0.85, min_gap=20,
                              sample_names=vcfgen.draw_names(rng, vcfgen.SAMPLE_NAMES, nsamples),
                              chrom_names=vcfgen.draw_names(rng, vcfgen.CHROM_NAMES, nchrom))
@@ -317,12 +317,73 @@ def gen_history(rng):
             st["algorithm"] = "heuristic" if not st["ped"] and rng.random() < 0.1 else "whatshap"
             st["reinput"] = rng.random() < 0.5
             st["reinput_max_coverage"] = rng.choice([None, None, 6, 4, 2])
+            st["reinput_variant"] = rng.choice(PHASE_INPUT_VARIANTS) if nchrom >= 2 and rng.random() < 0.8 else None
             for s in (st["samples"] or sc.samples):
                 carries[s] = True
         else:
             carries = {s: False for s in sc.samples}
         steps.append(st)
+    if steps and nchrom >= 2:
+        steps[0]["start_reinput_variant"] = rng.choice(PHASE_INPUT_VARIANTS)
     return sc, reads, base, start, steps, pre, shapes
+
+
+# phase-input VCFs whose chromosome set / order differs from the variant file's
+PHASE_INPUT_VARIANTS = ["drop_leading", "drop_middle_or_last", "reversed", "rotated", "superset_front", "superset_middle",
+                        "two_files_split", "two_files_split_reversed"]
+
+
+def write_phase_input_variants(d, phased_file, kind, prefix):
+    """derive phase-input VCF(s) from a phased file by dropping / reordering / adding whole chromosomes"""
+    lines = open(os.path.join(d, phased_file), newline="").read().split("\n")
+    header = [ln for ln in lines if ln.startswith("#")]
+    blocks = []                                   # [(chrom, [record lines])] in file order
+    for ln in lines:
+        if ln and not ln.startswith("#"):
+            c = ln.split("\t", 1)[0]
+            if not blocks or blocks[-1][0] != c:
+                blocks.append((c, []))
+            blocks[-1][1].append(ln)
+
+    def extra_block():
+        c, recs = blocks[-1]
+        return ("chrExtra", ["chrExtra" + ln[len(c):] for ln in recs])
+
+    def emit(name, bl):
+        hdr = list(header)
+        if any(c == "chrExtra" for c, _ in bl):
+            hdr.insert(1, "##contig=<ID=chrExtra,length=100000>")
+        with open(os.path.join(d, name), "w") as f:
+            f.write("\n".join(hdr + [ln for _, recs in bl for ln in recs]) + "\n")
+        return name
+
+    if kind == "drop_leading":
+        return [emit(prefix + "a.vcf", blocks[1:])]
+    if kind == "drop_middle_or_last":
+        k = len(blocks) // 2 if len(blocks) > 2 else len(blocks) - 1
+        return [emit(prefix + "a.vcf", blocks[:k] + blocks[k + 1:])]
+    if kind == "reversed":
+        return [emit(prefix + "a.vcf", blocks[::-1])]
+    if kind == "rotated":
+        return [emit(prefix + "a.vcf", blocks[1:] + blocks[:1])]
+    if kind == "superset_front":
+        return [emit(prefix + "a.vcf", [extra_block()] + blocks)]
+    if kind == "superset_middle":
+        return [emit(prefix + "a.vcf", blocks[:1] + [extra_block()] + blocks[1:])]
+    if kind == "two_files_split":
+        return [emit(prefix + "a.vcf", blocks[1::2]), emit(prefix + "b.vcf", blocks[0::2])]
+    if kind == "two_files_split_reversed":
+        return [emit(prefix + "a.vcf", blocks[0::2][::-1]), emit(prefix + "b.vcf", blocks[1::2][::-1])]
+    raise ValueError(kind)
+
+
+def run_variant_reinput(ctx, d, phased_file, kind, prefix, extra):
+    files = write_phase_input_variants(d, phased_file, kind, prefix)
+    files = [f for f in files if any(ln and not ln.startswith("#") for ln in open(os.path.join(d, f)))] or files[:1]
+    retrace = os.path.join(d, prefix + "trace.jsonl")
+    rc, so, se = util.run_cli(ctx, ["phase", "-o", prefix + "re.vcf"] + extra + ["base.vcf"] + files, cwd=d,
+                              env_extra={"WHATSHAP_VERIF_TRACE": retrace})
+    return (kind, files, prefix + "re.vcf", rc, se[-2500:], retrace)
 
 
 # ------------------------------------------------------------------------------------- running
@@ -359,7 +420,10 @@ def run_history(ctx, wd, idx, sc, reads, base, start, steps):
         # any whatshap run)
         rc, so, se = util.run_cli(ctx, ["phase", "-o", "re0.vcf", "base.vcf", "s0.vcf"], cwd=d,
                                   env_extra={"WHATSHAP_VERIF_TRACE": os.path.join(d, "retrace0.jsonl")})
-        out.append({"step": -1, "st": {"kind": "start_reinput"}, "hist": idx, "dir": d, "in": "s0.vcf", "re": ("re0.vcf", rc, se[-2500:])})
+        rec0 = {"step": -1, "st": {"kind": "start_reinput"}, "hist": idx, "dir": d, "in": "s0.vcf", "re": ("re0.vcf", rc, se[-2500:])}
+        if steps and steps[0].get("start_reinput_variant"):
+            rec0["rev"] = run_variant_reinput(ctx, d, "s0.vcf", steps[0]["start_reinput_variant"], "pv0", [])
+        out.append(rec0)
     for si, st in enumerate(steps):
         rec = {"step": si, "st": st, "hist": idx, "dir": d, "in": cur}
         if st["kind"] == "unphase":
@@ -395,6 +459,8 @@ def run_history(ctx, wd, idx, sc, reads, base, start, steps):
             rc, so, se = util.run_cli(ctx, ["phase", "-o", f"re{si + 1}.vcf"] + extra + ["base.vcf", nxt], cwd=d,
                                       env_extra={"WHATSHAP_VERIF_TRACE": os.path.join(d, f"retrace{si + 1}.jsonl")})
             rec["re"] = (f"re{si + 1}.vcf", rc, se[-2500:])
+            if st.get("reinput_variant"):
+                rec["rev"] = run_variant_reinput(ctx, d, nxt, st["reinput_variant"], f"pv{si + 1}", extra)
         out.append(rec)
         cur = nxt
     return out
@@ -462,7 +528,7 @@ def make_rcase(ctx, d, samples, phased_file, rb_phased, re_file, retrace, cap, d
     f_ph = vcfabs.parse_vcf(os.path.join(d, phased_file))
     f_re = vcfabs.parse_vcf(os.path.join(d, re_file))
     rreads = []
-    for ln in (json.loads(x) for x in open(retrace)) if os.path.exists(retrace) else []:
+    for ln in (json.loads(x) for x in open(retrace)) if retrace and os.path.exists(retrace) else []:
         if len(ln["family"]) == 1:
             rds = ["[" + "; ".join(f"({vcfabs._z(int(v[0]))}, {int(v[1])}%nat)" for v in r["variants"]) + "]" for r in ln["reads"]]
             rreads.append(f"({vcfabs._z(vcfabs.chrom_token(ln['chromosome'], it))}, {samples.index(ln['family'][0])}%nat, [" + "; ".join(rds) + "])")
@@ -471,6 +537,25 @@ def make_rcase(ctx, d, samples, phased_file, rb_phased, re_file, retrace, cap, d
              + vcfabs.recs_term(f_ph.records, it) + "\n "
              + vcfabs.recs_term(f_re.records, it) + "\n [" + ";\n ".join(rreads) + "])")
     R.append({"term": rterm, "desc": desc, "replay": replay})
+
+
+def variant_rcases(ctx, d, samples, rev, cap, desc, replay, R):
+    """re-input with phase-input VCFs whose chromosomes are a subset / superset / permutation of the variant file's:
+    every phase set of EVERY given file must be reproduced, chromosome by chromosome"""
+    kind, files, re_file, rc, se, retrace = rev
+    ctx.tally("reinput.variant." + kind)
+    if len(files) > 1:
+        ctx.tally("reinput.two_phase_input_files")
+    what = "`whatshap phase base.vcf " + " ".join(files) + f"` (phase input derived by '{kind}')"
+    if rc != 0:
+        ctx.violation("phaseinput:tool-failed", what + " failed: " + desc + " :: " + se[-300:], replay)
+        return
+    for f in files:
+        rb = read_back(os.path.join(d, f))
+        if rb[0] != "ok":
+            continue
+        make_rcase(ctx, d, samples, f, rb, re_file, retrace if len(files) == 1 else None, cap,
+                   desc + " + " + what + ", sets of " + f, replay, R)
 
 
 def build_cases(ctx, results, inputs):
@@ -495,6 +580,8 @@ def build_cases(ctx, results, inputs):
                     continue
                 make_rcase(ctx, d, list(sc.samples), "s0.vcf", rb0, re_path, os.path.join(d, "retrace0.jsonl"), 15,
                            desc + " (re-input of the generated pre-phased file)", replay, R)
+                if "rev" in rec:
+                    variant_rcases(ctx, d, list(sc.samples), rec["rev"], 15, desc + " (generated pre-phased file)", replay, R)
                 continue
             ctx.tally("steps." + st["kind"])
             for k in ("distrust", "only_snvs", "ped", "samples"):
@@ -592,6 +679,9 @@ def build_cases(ctx, results, inputs):
                     make_rcase(ctx, d, fin.samples, rec["outs"][tag][0], rbs[tag], re_path,
                                os.path.join(d, f"retrace{rec['step'] + 1}.jsonl"), st.get("reinput_max_coverage") or 15,
                                desc + " + re-input of the " + tag + " output", replay, R)
+                    if "rev" in rec:
+                        variant_rcases(ctx, d, fin.samples, rec["rev"], st.get("reinput_max_coverage") or 15,
+                                       desc + " (" + tag + " output)", replay, R)
     return P, U, R
 
 
@@ -708,6 +798,7 @@ def run_histories(ctx, n):
         ctx.tally("histories.prephased." + str(pre))
         ctx.tally("histories.samples.%d" % len(sc.samples))
         ctx.tally("histories.length.%d" % len(steps))
+        ctx.tally("histories.chromosomes.%d" % len(sc.chroms))
         for sh in shapes:
             ctx.tally("histories." + sh)
         if sc.samples != sorted(sc.samples):
